@@ -104,6 +104,31 @@ new={
 'C17-8':('`__init__` copies its input once at the end (traverses it twice)','pairs given as a generator or iterator'),
 'C19-7':('`data:` lines come from an `lru_cache` whose list is then appended to','a payload that was sent before with other fields'),
 'C19-8':('relay puts its sentinel only into an empty queue + the consumer loop no longer drains','`send` suspends and the generator returns right after its last yield'),
+
+'C01-9':('`safe_decode` remembers failed charset labels in a module-level set and falls back to Latin-1 for them','an earlier request whose bytes were invalid under the label in use'),
+'C01-10':('the decoder percent-decodes `name` and `filename` with `urllib.parse.unquote`','a name or filename containing `%XX`'),
+'C02-8':('ASGI `FileResponse` remembers on the object whether zero-copy send is offered','one object, first request with the extension, a later one without'),
+'C02-9':('`number()` takes a digit string longer than the size\'s spelling for "beyond the file" (as C03-5)','positions written with leading zeros'),
+'C04-9':('WSGI `JSONResponse` keeps its `json.dumps` options in a class attribute that `update` writes to','an earlier `JSONResponse` built with dumps options'),
+'C04-10':('`URL(scope=…)` prepends `root_path` only if the path does not start with it','a remainder below a mount that begins with the mount prefix'),
+'C05-9':('`RedirectResponse` applies `iri_to_uri` to plain strings only, not to `URL` objects','a `URL` object with text outside Latin-1 or a control character'),
+'C05-10':('ASGI `FileResponse` memoises the sendfile callable (which captured the first request\'s `send`)','one object answering two requests on two connections'),
+'C06-9':('ASGI event stream: clean-up split into `except GeneratorExit` / `else`','the server cancels the task, or an event cannot be encoded, while the producer is unfinished'),
+'C06-10':('producer closed only if it is an instance of `(Async)Generator`','a wrapper object with `aclose()`/`close()` that is not a generator'),
+'C07-9':('`ensure_absolute_path` memoised in a class-level dict shared by all Files/Pages apps','two apps with different directories, the same path asked of both'),
+'C07-10':('Pages tries `<path>.html` whenever the path is not a regular file','a directory `NAME/` beside a file `NAME.html`'),
+'C10-9':('ASGI `stream()` yields empty bodies + the async multipart helper reads an empty chunk as the end','multipart form parsed from the stream with an empty message before the end'),
+'C10-10':('ASGI `body` is a plain async property storing the joined bytes','two concurrent awaits, or a second access after a disconnect'),
+'C12-9':('`request.cookies` unquotes with its own pattern `\\\\(\\d{3})`','a quoted cookie value with a backslash and three digits, one of them 8 or 9'),
+'C12-10':('WSGI `body` reads `content_length` bytes in one `read()`','a Content-Length of 2**63 or more'),
+'C13-9':('`Cookie._quote` returns text that already has the double-quote form unchanged','a name or value wrapped in double quotes with CR, LF, `;` or `,` inside'),
+'C13-10':('`__setitem__` accepts non-str values and stores `str(value)` unchecked','a `URL` or path object whose text holds CR or LF'),
+'C14-7':('ETag as base64 of the digest + `lstrip("W/")` on list members','a version whose base64 ETag begins with `W` or `/`'),
+'C14-8':('`generate_etag` hashes mtime and size without the separator','a sub-second rewrite whose digits line up (X.0 + 12 bytes vs X.01 + 2 bytes)'),
+'C17-9':('`multi_items()` returns the internal list + the copy constructor no longer copies','a mapping built from another mapping, then a mutation of either'),
+'C17-10':('`QueryParams` parses with `errors="surrogateescape"`','a raw query string with a percent-escape that is not UTF-8 (`%FF`)'),
+'C20-9':('relayed headers rebuilt through `MutableHeaders.append` + `__setitem__` tests `str.isprintable()`','an inner header value with a tab, NBSP or UTF-8 bytes 0x80–0x9F'),
+'C20-10':('WSGI relay adds a Content-Length for a one-element list body','an inner app returning `[body]` without a Content-Length'),
 }
 ds=sorted(glob.glob('/verif/seeded/C*-*'), key=lambda s:(s.split('/')[-1][:3], int(s.split('-')[1])))
 missing=[]
